@@ -58,9 +58,22 @@ def _backend_kw(tag):
 
 def _sympy_shim():
     import sympy
-    ns = {k: getattr(sympy, k) for k in ("exp", "sqrt", "tanh", "cos", "atanh", "log", "sin")}
-    ns["arctanh"] = sympy.atanh
-    return types.SimpleNamespace(**ns)
+    class _Shim(object):
+        """sympy's functions under the names math / numpy use (arctanh, expm1, log1p, ...), so that the
+        ODE identity can still be checked when the function cannot be called with backend=sympy
+        (that failure itself is judged by the backend cases)."""
+        arctanh, arcsinh, arccosh = sympy.atanh, sympy.asinh, sympy.acosh
+        arctan, arcsin, arccos = sympy.atan, sympy.asin, sympy.acos
+        expm1 = staticmethod(lambda x: sympy.exp(x) - 1)
+        log1p = staticmethod(lambda x: sympy.log(1 + x))
+        log10 = staticmethod(lambda x: sympy.log(x) / sympy.log(10))
+        log2 = staticmethod(lambda x: sympy.log(x) / sympy.log(2))
+        power = staticmethod(lambda a, b: a ** b)
+        square = staticmethod(lambda a: a ** 2)
+
+        def __getattr__(self, name):
+            return getattr(sympy, name)
+    return _Shim()
 
 
 def _call_args(case, conv):
